@@ -1,9 +1,9 @@
 CONSTANTS
-  Prog <- P_hb2
+  Prog <- P_hb8
   Mult = 32
-  MaxW = 1
+  MaxW = 2
   GS = 2
-  SS = 2
+  SS = 1
   RingCap = 2
   SpinCheck = 2
   SpinLimit = 4
